@@ -1,6 +1,7 @@
 """C17 Invalid input is rejected with a diagnostic, never by an internal failure (DESIGN.md 6/C17)."""
 import re
 from contracts import generate_attrs as G
+from contracts import declast_parser as P
 
 
 def no_inputs(v):
@@ -16,10 +17,40 @@ def hint(nm):
 
 
 MONITORS = dict((u.name, ("m_attrs", no_inputs, hint, 9000)) for u in G.UNITS)
+MONITORS.update(dict((u.name, ("m_parser", no_inputs, lambda nm: None, 3000)) for u in P.UNITS))
+
+
+def literal_error_msg_sites(ctx):
+    """call-site obligation of error_msg's contract: every call that passes arguments uses a literal template that
+    str.format accepts for exactly those arguments (decided by evaluating the literal)."""
+    import ast
+    import os
+    import string
+    from checklib import REPO
+    src = open(os.path.join(REPO, "shroud/declast.py")).read()
+    for n in ast.walk(ast.parse(src)):
+        if isinstance(n, ast.Call) and isinstance(n.func, ast.Attribute) and n.func.attr == "error_msg":
+            ident = "C17/error_msg/call-requires@%d" % n.lineno
+            nargs = len(n.args) - 1
+            if nargs <= 0:
+                ctx.item(ident, len(n.args) == 1, "error_msg() without a message")
+                continue
+            t = n.args[0]
+            ok = isinstance(t, ast.Constant) and isinstance(t.value, str)
+            if ok:
+                try:
+                    t.value.format(*(["x"] * nargs))
+                    fields = [f for _, f, _, _ in string.Formatter().parse(t.value) if f is not None]
+                    ok = len(fields) == nargs
+                except Exception:
+                    ok = False
+            ctx.item(ident, ok, "template is not a literal valid for %d arguments" % nargs,
+                     sample={"call": ast.unparse(n)[:120]})
 
 
 def run(ctx):
-    ctx.pyvc(G.UNITS, MONITORS)
+    ctx.pyvc(G.UNITS + P.UNITS, MONITORS)
+    literal_error_msg_sites(ctx)
     ctx.trusted += [
         "pyvc, z3 5.1, cvc5 1.0.3; attribute values range over PyVal = None | bool | int | str | other(float)",
         "declast.check_dimension / generate.check_implied: trusted contracts (need a str, may raise RuntimeError)",
@@ -27,10 +58,16 @@ def run(ctx):
         "iteration over attrs: arbitrary list of non-empty keys",
     ]
     ctx.not_covered += [
-        "parser units (Parser.declaration ... decl_statement), tokenizer, YAML structure validation: bounded monitor only",
+        "parser units other than have/mustbe/error_msg/decl_statement (sub-parsers are used through the contract "
+        "'consumes >= 0 tokens, may raise RuntimeError'), tokenizer, YAML structure validation: bounded monitor only",
         "PyYAML errors; emitters",
     ]
     if ctx.tier == "thorough":
+        r = ctx.monitor("m_parser", "search", 20000, ctx.seed)
+        ctx.bounded.append({"monitor": "m_parser", "kind": "bounded run of the real declaration parser: documented forms, forms + stray text, random token strings",
+                            "inputs_tried": r["tried"], "violation": r["violation"]})
+        if r["violation"]:
+            ctx.violation("bounded/m_parser", {"inputs": r["inputs"], "observed": r["violation"]}, True)
         r = ctx.monitor("m_attrs", "search", 9000, ctx.seed)
         ctx.bounded.append({"monitor": "m_attrs", "kind": "bounded run of the real parser + generate_functions on a type x attribute x value grid",
                             "inputs_tried": r["tried"], "violation": r["violation"]})
